@@ -3,6 +3,7 @@ package main
 // C15 — macro templates expand by exact substitution.
 
 import (
+	"go/constant"
 	"fmt"
 	"go/ast"
 	"go/token"
@@ -179,63 +180,62 @@ func checkC15(c *Ctx) {
 	// family shares the tables) are part of "expansion leaves the caller's state consistent"
 	checkC19(c)
 
-	// ---- C15-SUGAR
-	if fd := c.funcDecl("Parser.ParseExpression"); fd != nil {
+	// ---- C15-SUGAR (on the SSA form: an if-chain and a switch compare the same way)
+	if pe := c.mustFn("C15-SUGAR", "Parser.ParseExpression"); pe != nil {
 		sugar := map[string]string{"TokenCaret": "syntaxQuote", "TokenTilde": "unquote", "TokenTildeAt": "unquote-splicing", "TokenQuote": "quote"}
+		tokVal := map[int64]string{}
+		for tok := range sugar {
+			if k, ok := c.Zygo.Types.Scope().Lookup(tok).(*types.Const); ok {
+				if v, exact := constant.Int64Val(k.Val()); exact {
+					tokVal[v] = tok
+				}
+			}
+		}
 		found := map[string]string{}
-		ast.Inspect(fd.Body, func(n ast.Node) bool {
-			cc, ok := n.(*ast.CaseClause)
-			if !ok || len(cc.List) != 1 {
-				return true
-			}
-			id, ok := cc.List[0].(*ast.Ident)
-			if !ok {
-				return true
-			}
-			if _, want := sugar[id.Name]; !want {
-				return true
-			}
-			ast.Inspect(cc, func(m ast.Node) bool {
-				if call, ok := m.(*ast.CallExpr); ok {
-					if sel, ok := call.Fun.(*ast.SelectorExpr); ok && sel.Sel.Name == "MakeSymbol" && len(call.Args) == 1 {
-						if lit, ok := call.Args[0].(*ast.BasicLit); ok {
-							found[id.Name] = strings.Trim(lit.Value, `"`)
+		mk := c.fn("Zlisp.MakeSymbol")
+		for _, f := range withClosures(pe) {
+			eachInstr(f, func(b *ssa.BasicBlock, i int, in ssa.Instruction) {
+				call, ok := in.(*ssa.Call)
+				if !ok || mk == nil || call.Call.StaticCallee() != mk || len(call.Call.Args) < 2 {
+					return
+				}
+				k, ok := call.Call.Args[1].(*ssa.Const)
+				if !ok || k.Value == nil || k.Value.Kind() != constant.String {
+					return
+				}
+				name := constant.StringVal(k.Value)
+				// the token kinds under whose comparison this call runs
+				for v, tok := range tokVal {
+					v := v
+					if guardedBy(b, func(cond ssa.Value) (bool, bool) {
+						bo, ok := cond.(*ssa.BinOp)
+						if !ok || (bo.Op != token.EQL && bo.Op != token.NEQ) {
+							return false, false
 						}
+						kv, isK := constIntOf(bo.Y)
+						if !isK {
+							kv, isK = constIntOf(bo.X)
+						}
+						if !isK || kv != v {
+							return false, false
+						}
+						return true, bo.Op == token.EQL
+					}) {
+						found[tok] = name
 					}
 				}
-				return true
 			})
-			return true
-		})
+		}
 		for tok, name := range sugar {
-			c.check(found[tok] == name, "C15-SUGAR", "Parser.ParseExpression", tok, fd.Pos(), "read as ("+name+" ...)", "the reader maps "+tok+" to `"+found[tok]+"` instead of `"+name+"`")
+			c.check(found[tok] == name, "C15-SUGAR", "Parser.ParseExpression", tok, pe.Pos(), "read as ("+name+" ...)", "the reader maps "+tok+" to `"+found[tok]+"` instead of `"+name+"`")
 		}
 		// the generator tests for the same names
-		if g := c.funcDecl("Generator.generateSyntaxQuoteList"); g != nil {
-			names := map[string]bool{}
-			ast.Inspect(g.Body, func(n ast.Node) bool {
-				if be, ok := n.(*ast.BinaryExpr); ok && be.Op == token.EQL {
-					if lit, ok := be.Y.(*ast.BasicLit); ok && exprShort(be.X) == "sym.name" {
-						names[strings.Trim(lit.Value, `"`)] = true
-					}
-				}
-				return true
-			})
+		if g := c.mustFn("C15-SUGAR", "Generator.generateSyntaxQuoteList"); g != nil {
+			names := stringsComparedIn(g)
 			c.check(names["unquote"] && names["unquote-splicing"], "C15-SUGAR", "Generator.generateSyntaxQuoteList", "names tested", g.Pos(), "the template walker recognises unquote and unquote-splicing", "the template walker no longer tests for the names the reader produces")
 		}
-		if g := c.funcDecl("Generator.GenerateCallBySymbol"); g != nil {
-			has := false
-			ast.Inspect(g.Body, func(n ast.Node) bool {
-				if cc, ok := n.(*ast.CaseClause); ok {
-					for _, e := range cc.List {
-						if lit, ok := e.(*ast.BasicLit); ok && lit.Value == `"syntaxQuote"` {
-							has = true
-						}
-					}
-				}
-				return true
-			})
-			c.check(has, "C15-SUGAR", "Generator.GenerateCallBySymbol", "syntaxQuote arm", g.Pos(), "the special form the caret reads as exists", "no special form named syntaxQuote")
+		if g := c.mustFn("C15-SUGAR", "Generator.GenerateCallBySymbol"); g != nil {
+			c.check(stringsComparedIn(g)["syntaxQuote"], "C15-SUGAR", "Generator.GenerateCallBySymbol", "syntaxQuote arm", g.Pos(), "the special form the caret reads as exists", "no special form named syntaxQuote")
 		}
 	}
 
@@ -285,6 +285,26 @@ func checkC15(c *Ctx) {
 		}
 	}
 	_ = types.Typ
+}
+
+// stringsComparedIn: the string constants a function compares a value with
+// (==, !=, or the arms of a switch, which compile to the same comparisons).
+func stringsComparedIn(f *ssa.Function) map[string]bool {
+	out := map[string]bool{}
+	for _, g := range withClosures(f) {
+		eachInstr(g, func(b *ssa.BasicBlock, i int, in ssa.Instruction) {
+			bo, ok := in.(*ssa.BinOp)
+			if !ok || (bo.Op != token.EQL && bo.Op != token.NEQ) {
+				return
+			}
+			for _, side := range []ssa.Value{bo.X, bo.Y} {
+				if k, ok := side.(*ssa.Const); ok && k.Value != nil && k.Value.Kind() == constant.String {
+					out[constant.StringVal(k.Value)] = true
+				}
+			}
+		})
+	}
+	return out
 }
 
 // excludesType: on every path into block b, value v is known not to have the
